@@ -647,21 +647,47 @@ def forall2(f, name="q"):
     return VBool(z3.ForAll([a, b], tobool(f(VInt(a), VInt(b)))))
 
 
-def _is_uf_app(t):
-    return z3.is_app(t) and t.decl().kind() == z3.Z3_OP_UNINTERPRETED and t.num_args() > 0
+def _is_pat_term(t):
+    if not z3.is_app(t) or t.num_args() == 0:
+        return False
+    k = t.decl().kind()
+    return k in (z3.Z3_OP_UNINTERPRETED, z3.Z3_OP_SELECT, z3.Z3_OP_RECURSIVE) if hasattr(z3, "Z3_OP_RECURSIVE") \
+        else k in (z3.Z3_OP_UNINTERPRETED, z3.Z3_OP_SELECT)
+
+
+def _vars_of(t, acc):
+    if z3.is_var(t):
+        acc.add(z3.get_var_index(t))
+    for ch in (t.children() if z3.is_app(t) else []):
+        _vars_of(ch, acc)
+
+
+def _consts_in(t, names, acc, seen):
+    if t.get_id() in seen:
+        return
+    seen.add(t.get_id())
+    if z3.is_const(t) and t.decl().kind() == z3.Z3_OP_UNINTERPRETED and t.decl().name() in names:
+        acc.add(t.decl().name())
+    for ch in t.children():
+        _consts_in(ch, names, acc, seen)
 
 
 def qforall(vs, body, pats=()):
-    """ForAll with explicit patterns where every pattern term is an uninterpreted
-    application mentioning all bound variables; otherwise solver-chosen patterns"""
+    """ForAll with explicit patterns.  pats: list of patterns; a pattern is a term or a list of terms
+    (multi-pattern).  A pattern is kept only if all its terms are uninterpreted applications / selects and
+    together they mention every bound variable; if none is usable the solver chooses."""
+    names = set(v.decl().name() for v in vs)
     good = []
     for p in pats:
-        terms = p if isinstance(p, (list, tuple)) else [p]
-        if all(_is_uf_app(t) for t in terms):
-            good.append(z3.MultiPattern(*terms) if len(terms) > 1 else terms[0])
-    try:
-        if good:
-            return z3.ForAll(vs, body, patterns=good)
-    except z3.Z3Exception:
-        pass
+        terms = list(p) if isinstance(p, (list, tuple)) else [p]
+        if not terms or not all(_is_pat_term(t) for t in terms):
+            continue
+        acc = set()
+        for t in terms:
+            _consts_in(t, names, acc, set())
+        if acc != names:
+            continue
+        good.append(z3.MultiPattern(*terms) if len(terms) > 1 else terms[0])
+    if good:
+        return z3.ForAll(vs, body, patterns=good)
     return z3.ForAll(vs, body)
